@@ -186,8 +186,10 @@ CLAIMS = {
               "order LOW < MID < HIGH (trichotomy); the Surface-17 tables are evaluated from their literals (17 qubits each with a group, 24 "
               "edges each joining two different groups, so the lower-frequency member of every gate is defined); on_moving_side is the "
               "conjunction 'edge contains q and group(q) higher than group(partner)'; get_requires_parking has the skeleton spectator (over ALL "
-              "gates) and not participant and EXISTS involved neighbour (higher and moving), and get_requires_idle is its exact mirror (sibling "
-              "comparison after swapping the two primitives); the grouping enumeration records only complete partitions and removes exactly the "
+              "gates) and not participant and EXISTS involved neighbour (higher and moving) where the candidates are exactly the direct neighbours "
+              "that are part of one of the given gates, each taken with its own group and with THE gate it is part of (the pairing is read from "
+              "the zipped lists / index lookup, a collector scan or a first-edge table into one description), and get_requires_idle is its exact "
+              "mirror (sibling comparison of that description after swapping the two primitives); the grouping enumeration records only complete partitions and removes exactly the "
               "chosen combination; a grouping is kept iff every step passed get_mutually_allowed on all its gates, which tests every ordered pair; "
               "(Q7) the constraint an operation puts on a qubit: a member qubit may do nothing else, a far qubit is free, a neighbour is forbidden "
               "every intersecting gate plus idle-and-non-moving gates when it must park plus park-and-moving gates when it must idle; allowed = "
